@@ -820,7 +820,65 @@ func everyCellFeedsKernel(ctx *Ctx, r *Report, rule string, fn *ssa.Function, ke
 			bad += " a path from the kernel call to the next cell misses the writer;"
 		}
 	}
-	r.check(rule, who+"|every-cell-reaches-"+kernel+"-and-the-writer", kcall.Pos(), bad == "", fmt.Sprintf("%d branches inside the cell loop before the kernel call, all sign tests;%s", nBranches, bad))
+	// a skip on signs is right only if it implies that all corners lie on one side: the
+	// condition under which the kernel is called is evaluated for every assignment of signs to
+	// the corner values (testing the diagonals only drops the two saddle configurations)
+	if bad == "" && nBranches > 0 {
+		ev := newEval(ctx, kernel, "Get", "get", "newLayerYZ", "newLineCache", "Evaluate", "evaluate", "evalRoutines")
+		ev.evalRoot(fn)
+		ks := eventsOf(ev, "."+kernel)
+		if len(ks) == 1 && len(ks[0].Args) >= 2 && ks[0].Cond != nil {
+			var vals []*Term
+			if ag, ok := ks[0].Args[1].(*Agg); ok {
+				for _, e := range ag.Elems {
+					if t, ok := e.(*Term); ok {
+						vals = append(vals, t)
+					}
+				}
+			}
+			isVal := func(x *Term) bool {
+				for _, v := range vals {
+					if len(findSub(x, func(y *Term) bool { return y.Key() == v.Key() })) > 0 {
+						return true
+					}
+				}
+				return false
+			}
+			truth := map[string]bool{}
+			for _, c := range findSub(ks[0].Cond, func(x *Term) bool { return x.Op == "cmp" }) {
+				if !isVal(c) {
+					truth[c.Key()] = true // loop tests
+				}
+			}
+			g := assume(ks[0].Cond, truth)
+			n := len(vals)
+			if n > 0 && n <= 8 {
+				func() {
+					defer func() {
+						if recover() != nil {
+							bad += " the condition of the kernel call is not a function of the corner signs: " + shortKey(g.Key(), 160) + ";"
+						}
+					}()
+					for m := 0; m < 1<<uint(n) && bad == ""; m++ {
+						env := map[string]*big.Rat{}
+						for k, v := range vals {
+							if m>>uint(k)&1 == 1 {
+								env[v.Key()] = big.NewRat(-1, 1)
+							} else {
+								env[v.Key()] = big.NewRat(1, 1)
+							}
+						}
+						called := evalT(g, env).Sign() != 0
+						mixed := m != 0 && m != 1<<uint(n)-1
+						if mixed && !called {
+							bad += fmt.Sprintf(" with inside-corner mask %0*b the cell is skipped although its corners lie on both sides;", n, m)
+						}
+					}
+				}()
+			}
+		}
+	}
+	r.check(rule, who+"|every-cell-reaches-"+kernel+"-and-the-writer", kcall.Pos(), bad == "", fmt.Sprintf("%d branches inside the cell loop before the kernel call, all sign tests, and a skipped cell has all corners on one side;%s", nBranches, bad))
 }
 
 // branchPos: a usable position for an If (its condition's, or the first positioned instruction's).
